@@ -325,6 +325,9 @@ def execute(case):
                  'duccio:closed-form', f'epoch={epoch}/{n_sched} value={v} reference={ref} finals={finals} excess={excess}')
         # (d) effective strengths, read as d value / d cost_i (stub) or value/excess (single metric)
         obs = {}
+        if case['kind'] == 'stub' and not val.requires_grad and not all_ok:
+            fail('DUCCIO returns a value without gradient although a cost exceeds its target (no regularisation '
+                 'gradient reaches the architecture)', 'duccio:no-gradient', f'epoch={epoch} value={v} excess={excess}')
         if case['kind'] == 'stub' and val.requires_grad:
             val.backward()
             for n in names:
